@@ -230,6 +230,32 @@ WCompressLOld(mem, A, r1, n1, r2) == WCompressLG(mem, A, r1, n1, r2, FALSE)
 \* every address touched by the row part lies in the row (reads of the first chunk: the word of column n1 only,
 \* as rest <= W bits starting at a word boundary never spill)
 
+(* _mzd_apply_p_right_even(A, P, start_row, start_col = 0, notrans) (m4ri/mzp.c): the column permutation as an explicit  *)
+(* array, a write mask of the fixed points (plus the bits beyond the last column), every row copied to a scratch row and *)
+(* cleared under the mask, then per block of W columns below `length` the moved bits gathered from the scratch row.        *)
+\* P: sequence of 0-based values (LAPACK swap form), 1-based indexing as everywhere
+PermArray(n, P, notrans) ==
+  LET length == Min({Len(P), n})
+      id == [c \in 0 .. n - 1 |-> c]
+      sw(f, i) == LET t == f[i] IN [f EXCEPT ![i] = f[P[i + 1]], ![P[i + 1]] = t]
+      asc[i \in 0 .. length] == IF i = 0 THEN id ELSE sw(asc[i - 1], i - 1)                       \* trans: i = 0 .. length-1
+      desc[i \in 0 .. length] == IF i = 0 THEN id ELSE sw(desc[i - 1], length - i)                \* notrans: length-1 down to 0
+  IN IF notrans THEN desc[length] ELSE asc[length]
+ApplyPRightEven(mem, A, P, notrans, start_row) ==
+  IF A.nrows - start_row <= 0 THEN mem ELSE
+  LET n == A.ncols  length == Min({Len(P), n})  width == Width(A)
+      perm == PermArray(n, P, notrans)
+      wm0 == [j \in 0 .. width - 1 |-> {k \in Bits : j * W + k < n /\ perm[j * W + k] = j * W + k}]
+      wmask == [wm0 EXCEPT ![width - 1] = wm0[width - 1] \cup NotW(HighMask(A))]
+      rowupd(m, r) ==
+        LET brow == [j \in 0 .. width - 1 |-> m[Addr(A, r, j)]]                                   \* the scratch copy of the row
+            cleared == ForWords(m, 0, width - 1, LAMBDA mm, j : Put(mm, Addr(A, r, j), AndW(mm[Addr(A, r, j)], wmask[j])))
+            blocks == {b \in 0 .. width - 1 : b * W < length /\ wmask[b] # Bits}
+            gather(b) == {k \in 0 .. Min({W, length - b * W}) - 1 : (perm[b * W + k] % W) \in brow[perm[b * W + k] \div W]}
+        IN FoldLeft(LAMBDA mm, b : IF b \in blocks THEN Put(mm, Addr(A, r, b), mm[Addr(A, r, b)] \cup gather(b)) ELSE mm,
+                    cleared, [x \in 1 .. width |-> x - 1])
+  IN ForWords(mem, start_row, A.nrows - 1, rowupd)
+
 (* observers: read under the mask *)
 WIsZero(mem, A) ==
   \A i \in 0 .. A.nrows - 1 :
